@@ -64,3 +64,14 @@ func cloneClaim(claim crosschaintypes.ExternalClaim) crosschaintypes.ExternalCla
 	lib.Must(proto.Unmarshal(bz, out))
 	return out
 }
+
+// failOnce records at most three failures per signature, so that a recurring (known) finding cannot use up the
+// report's failure budget and hide a different failure later in the run.
+var sigCount = map[string]int{}
+
+func (e *env) failSig(f lib.Failure) {
+	sigCount[f.Sig]++
+	if sigCount[f.Sig] <= 3 {
+		e.rep.Fail(f)
+	}
+}
